@@ -30,10 +30,13 @@ type Outcome struct {
 	HeldReader  string            `json:"held_reader,omitempty"`
 	// readers obtained before Close and kept by the caller (HoldReader): read
 	// again after later transactions used the recycled object
-	heldLate    []io.Reader
-	ErrSteps    []string `json:"err_steps,omitempty"` // steps that returned a non-nil error
-	DebugErrors int      `json:"debug_errors"`
-	Excl        string   `json:"exclusivity,omitempty"`
+	heldLate []io.Reader
+	// ErrVars: the error variables read directly from the transaction before
+	// Close (rules cannot dump them once a rule has switched the engine off)
+	ErrVars     map[string]string `json:"-"`
+	ErrSteps    []string          `json:"err_steps,omitempty"` // steps that returned a non-nil error
+	DebugErrors int               `json:"debug_errors"`
+	Excl        string            `json:"exclusivity,omitempty"`
 }
 
 func ifacePtr(x any) unsafe.Pointer { return (*[2]unsafe.Pointer)(unsafe.Pointer(&x))[1] }
@@ -238,6 +241,15 @@ func runTx(h *wafHandle, s *TxScript) *Outcome {
 
 func observe(tx types.Transaction, out *Outcome) {
 	out.Interrupted = itOf(tx.Interruption())
+	if itx, ok := tx.(*corazawaf.Transaction); ok {
+		v := itx.Variables()
+		out.ErrVars = map[string]string{
+			"REQBODY_ERROR": v.RequestBodyError().Get(), "REQBODY_ERROR_MSG": v.RequestBodyErrorMsg().Get(),
+			"REQBODY_PROCESSOR_ERROR": v.RequestBodyProcessorError().Get(), "REQBODY_PROCESSOR_ERROR_MSG": v.RequestBodyProcessorErrorMsg().Get(),
+			"MULTIPART_STRICT_ERROR": v.MultipartStrictError().Get(), "INBOUND_DATA_ERROR": v.InboundDataError().Get(),
+			"OUTBOUND_DATA_ERROR": v.OutboundDataError().Get(), "URLENCODED_ERROR": v.UrlencodedError().Get(),
+		}
+	}
 	for _, mr := range tx.MatchedRules() {
 		id := mr.Rule().ID()
 		if id == dumpRuleID {
